@@ -37,6 +37,9 @@ theorem tie_harmonize (F : Fns) (s : St) (g : GState) (sf gf : List Fld) :
   all_goals (by_cases h6 : Fld.velocity ∈ gf <;> by_cases h7 : Fld.velocity_y ∈ gf <;> simp_all)
 
 theorem andM_ok (a b : Bool) : CR.PyG.andM a (.ok b) = .ok (a && b) := by cases a <;> rfl
+theorem ite_ok {α : Type} (c : Prop) [Decidable c] (a b : α) :
+    (if c then (Except.ok a : Res α) else Except.ok b) = Except.ok (if c then a else b) := by split <;> rfl
+theorem ite_and (a b : Bool) : (if a = true then b else false) = (a && b) := by cases a <;> rfl
 theorem issubset_eq (a b : List Fld) : CR.PyG.issubset a b = subsetF a b := rfl
 
 theorem tie_is_reached_step (F : Fns) (τ ε : Rat) (goals0 : List GState) (s : St) (acc : List Bool) (g : GState)
@@ -56,7 +59,7 @@ theorem tie_is_reached_step (F : Fns) (τ ε : Rat) (goals0 : List GState) (s : 
       obtain ⟨gt, gpos, gori, gvel⟩ := g
       cases pos <;> cases ori <;> cases vel <;> cases gpos <;> cases gori <;> cases gvel <;>
         simp [bind, Except.bind, pure, Except.pure, CR.PyG.gHasValue, CR.PyG.sHasValue,
-          andM_ok, CR.PyG.containsPoint, CR.PyG.need, Gen.GoalRegion_check_value_in_interval_I,
+          andM_ok, ite_ok, ite_and, CR.PyG.containsPoint, CR.PyG.need, Gen.GoalRegion_check_value_in_interval_I,
           Gen.GoalRegion_check_value_in_interval_A]
     · simp [hs, bind, Except.bind, Except.map, throw, throwThe, MonadExceptOf.throw]
 
